@@ -323,6 +323,47 @@ fn blackhole_port() -> (i32, SocketAddr, Vec<TcpStream>) {
     }
 }
 
+/// bind a loopback listener on an ephemeral port; transient failures (the machine is shared) are retried
+fn bind_loopback() -> TcpListener {
+    let mut last = None;
+    for _ in 0..200 {
+        match TcpListener::bind("127.0.0.1:0") {
+            Ok(l) => return l,
+            Err(e) => {
+                last = Some(e);
+                std::thread::sleep(Duration::from_millis(25));
+            }
+        }
+    }
+    panic!("harness: cannot bind a loopback listener: {:?}", last)
+}
+
+/// std::thread::spawn panics when the OS refuses a thread; retry instead (harness threads only)
+fn spawn_retry<T: Send + 'static>(name: &str, f: impl FnOnce() -> T + Send + 'static) -> std::thread::JoinHandle<T> {
+    let mut f = Some(f);
+    let mut tries = 0;
+    loop {
+        let g = f.take().unwrap();
+        // Builder::spawn consumes the closure even on failure, so keep it in a shared cell
+        let cell = Arc::new(Mutex::new(Some(g)));
+        let c2 = cell.clone();
+        match std::thread::Builder::new().name(name.to_string()).spawn(move || {
+            let g = c2.lock().unwrap().take().unwrap();
+            g()
+        }) {
+            Ok(h) => return h,
+            Err(e) => {
+                tries += 1;
+                if tries > 200 {
+                    panic!("harness: cannot spawn a thread: {:?}", e);
+                }
+                f = cell.lock().unwrap().take();
+                std::thread::sleep(Duration::from_millis(25));
+            }
+        }
+    }
+}
+
 fn set_linger0(s: &TcpStream) {
     use std::os::unix::io::AsRawFd;
     let l = libc::linger { l_onoff: 1, l_linger: 0 };
@@ -371,7 +412,7 @@ fn run_case(c: &Case, state: &Arc<AppState>) -> Obs {
     // upstream
     let mut _fillers = vec![];
     let (addr, refuse_fd, listener) = if c.connected {
-        let l = TcpListener::bind("127.0.0.1:0").expect("bind");
+        let l = bind_loopback();
         (l.local_addr().unwrap(), -1, Some(l))
     } else if c.blackhole {
         let (fd, a, f) = blackhole_port();
@@ -383,7 +424,7 @@ fn run_case(c: &Case, state: &Arc<AppState>) -> Obs {
     };
     let events = c.events.clone();
     let rel2 = release.clone();
-    let up = std::thread::spawn(move || -> Vec<u8> {
+    let up = spawn_retry("upstream", move || -> Vec<u8> {
         let l = match listener {
             Some(l) => l,
             None => return vec![],
@@ -443,7 +484,7 @@ fn run_case(c: &Case, state: &Arc<AppState>) -> Obs {
     let route = c.route.clone();
     let st = state.clone();
     let start = Instant::now();
-    std::thread::spawn(move || {
+    spawn_retry("cut", move || {
         let r = std::panic::catch_unwind(std::panic::AssertUnwindSafe(|| {
             if handler {
                 let lb = EqMutex::new(LoadBalancer { targets: vec![addr.to_string()], mode: LoadBalancerMode::RoundRobin, index: 0, lcg: Lcg::new() });
@@ -498,7 +539,7 @@ fn pool<T: Send + Sync + 'static, R: Send + 'static>(jobs: Vec<T>, threads: usiz
     let hs: Vec<_> = (0..threads.max(1))
         .map(|_| {
             let (jobs, next, out, f) = (jobs.clone(), next.clone(), out.clone(), f.clone());
-            std::thread::spawn(move || loop {
+            spawn_retry("worker", move || loop {
                 let i = next.fetch_add(1, Ordering::SeqCst);
                 if i >= n {
                     break;
@@ -776,6 +817,11 @@ fn cuts(timeout_ms: u64, threads: usize, stall_mod: usize, nseeds: usize, nbig: 
             }
         }
     }
+    // confirmation runs: only the cases named in the file VERIF_ONLY_IDS (one id per line)
+    if let Ok(path) = std::env::var("VERIF_ONLY_IDS") {
+        let only: std::collections::HashSet<String> = std::fs::read_to_string(path).unwrap_or_default().lines().map(|l| l.trim().to_string()).collect();
+        jobs.retain(|j| only.contains(&j.id));
+    }
     let st = state.clone();
     let results = pool(jobs, threads, move |j: &CutJob| {
         let mut o = run_case(&j.case, &st);
@@ -797,25 +843,47 @@ fn cuts(timeout_ms: u64, threads: usize, stall_mod: usize, nseeds: usize, nbig: 
 // ------------------------------------------------------------------------------------------------
 static SEQ: AtomicU64 = AtomicU64::new(1);
 
+/// One group. A proxy_handler call that did not come back with an upstream's "T<i>" body without panicking (the
+/// loopback connection itself failed: 502) says nothing about the balancer; such a group is repeated and, if it
+/// keeps happening, the run ends as an environment error (exit 3), never as a finding.
 fn lb_group(nt: usize, k: usize, calls: usize, mode: LoadBalancerMode, via_handler: bool, start: usize, state: &Arc<AppState>, rng: &mut Rng) {
+    for attempt in 0..4 {
+        if lb_group_once(nt, k, calls, mode, via_handler, start, state, rng) {
+            return;
+        }
+        eprintln!("lb group nt={} k={} via_handler={}: a proxied call did not reach its upstream (attempt {})", nt, k, via_handler, attempt);
+        std::thread::sleep(Duration::from_millis(500));
+    }
+    eprintln!("harness: environment error: loopback upstreams unreachable");
+    std::process::exit(3);
+}
+
+const UNREACHED: usize = usize::MAX;
+
+fn lb_group_once(nt: usize, k: usize, calls: usize, mode: LoadBalancerMode, via_handler: bool, start: usize, state: &Arc<AppState>, rng: &mut Rng) -> bool {
     let stop = Arc::new(AtomicBool::new(false));
     let mut targets = vec![];
     let mut ups = vec![];
     for i in 1..=nt {
         if via_handler {
-            let l = TcpListener::bind("127.0.0.1:0").expect("bind");
+            let l = bind_loopback();
             targets.push(l.local_addr().unwrap().to_string());
-            l.set_nonblocking(true).ok();
             let stop = stop.clone();
-            ups.push(std::thread::spawn(move || {
-                while !stop.load(Ordering::SeqCst) {
-                    match l.accept() {
-                        Ok((mut s, _)) => {
-                            s.set_nonblocking(false).ok();
-                            let _ = read_request(&mut s, Instant::now() + Duration::from_millis(1000));
-                            let _ = s.write_all(format!("HTTP/1.1 200 OK\r\nContent-Length: 2\r\n\r\nT{}", i).as_bytes());
+            // blocking accept (woken by one last connection after `stop` is set): a fast upstream keeps the
+            // handler threads overlapping in proxy_handler
+            ups.push(spawn_retry("lb-upstream", move || loop {
+                match l.accept() {
+                    Ok((mut s, _)) => {
+                        if stop.load(Ordering::SeqCst) {
+                            break;
                         }
-                        Err(_) => std::thread::sleep(Duration::from_millis(1)),
+                        let _ = read_request(&mut s, Instant::now() + Duration::from_millis(2000));
+                        let _ = s.write_all(format!("HTTP/1.1 200 OK\r\nContent-Length: 2\r\n\r\nT{}", i).as_bytes());
+                    }
+                    Err(_) => {
+                        if stop.load(Ordering::SeqCst) {
+                            break;
+                        }
                     }
                 }
             }));
@@ -831,7 +899,7 @@ fn lb_group(nt: usize, k: usize, calls: usize, mode: LoadBalancerMode, via_handl
         .map(|t| {
             let (lb, barrier, targets, state) = (lb.clone(), barrier.clone(), targets.clone(), state.clone());
             let jit = jitter[t];
-            std::thread::spawn(move || {
+            spawn_retry("cut", move || {
                 let mut log = vec![];
                 barrier.wait();
                 for c in 0..calls {
@@ -845,7 +913,8 @@ fn lb_group(nt: usize, k: usize, calls: usize, mode: LoadBalancerMode, via_handl
                         let ret = SEQ.fetch_add(1, Ordering::SeqCst);
                         let tgt = match r {
                             Ok(resp) if resp.body.len() >= 2 && resp.body[0] == b'T' => String::from_utf8_lossy(&resp.body[1..]).parse::<usize>().unwrap_or(0),
-                            _ => 0,
+                            Ok(_) => UNREACHED, // an answer, but not an upstream's: the connection failed
+                            Err(_) => 0,        // select_target / the handler panicked
                         };
                         log.push((t + 1, tgt, inv, ret));
                     } else {
@@ -875,19 +944,34 @@ fn lb_group(nt: usize, k: usize, calls: usize, mode: LoadBalancerMode, via_handl
         all.extend(h.join().unwrap_or_default());
     }
     stop.store(true, Ordering::SeqCst);
+    if via_handler {
+        for t in &targets {
+            let _ = TcpStream::connect(t.as_str());
+        }
+    }
     for u in ups {
         let _ = u.join();
+    }
+    if all.iter().any(|x| x.1 == UNREACHED) {
+        return false;
     }
     all.sort_by_key(|x| x.2);
     out_line(&json!({"k": "cfg", "nt": nt, "mode": mode_name, "start": start, "t": k, "r": 0, "inv": 0, "ret": 0, "via": if via_handler { "handler" } else { "locked" }}));
     for (t, r, inv, ret) in all {
         out_line(&json!({"k": "call", "nt": nt, "mode": mode_name, "start": start, "t": t, "r": r, "inv": inv, "ret": ret, "via": if via_handler { "handler" } else { "locked" }}));
     }
+    true
 }
 
-fn lb(max_threads: usize, calls: usize) {
+fn lb(max_threads: usize, calls: usize, stress_rounds: usize, stress_calls: usize) {
     let state = app_state();
     let mut rng = Rng::from_env();
+    // stress: 8 threads x hundreds of proxy_handler calls on one round-robin balancer (a lost update between two
+    // overlapping calls needs many of them to show); the number of targets changes from round to round
+    for round in 0..stress_rounds {
+        let nt = [3, 2, 4][round % 3];
+        lb_group(nt, 8, stress_calls, LoadBalancerMode::RoundRobin, true, 0, &state, &mut rng);
+    }
     for nt in 1..=4 {
         for k in 1..=max_threads {
             for mode in [LoadBalancerMode::RoundRobin, LoadBalancerMode::Random] {
@@ -902,13 +986,19 @@ fn lb(max_threads: usize, calls: usize) {
 }
 
 fn main() {
-    quiet_panics();
+    // panics of the code under test (threads named "cut") are data and stay silent; a panic of the harness itself is
+    // reported on stderr so that the driver's tool error says what happened
+    std::panic::set_hook(Box::new(|info| {
+        if std::thread::current().name() != Some("cut") {
+            eprintln!("harness panic in thread {:?}: {}", std::thread::current().name(), info);
+        }
+    }));
     let a: Vec<String> = std::env::args().collect();
     let num = |i: usize, d: u64| -> u64 { a.get(i).and_then(|s| s.parse().ok()).unwrap_or(d) };
     match a.get(1).map(|s| s.as_str()) {
         Some("replay") => replay(num(2, 450), num(3, 3), num(4, 32) as usize),
         Some("cuts") => cuts(num(2, 300), num(3, 32) as usize, num(4, 4) as usize, num(5, 6) as usize, num(6, 0) as usize),
-        Some("lb") => lb(num(2, 4) as usize, num(3, 3) as usize),
+        Some("lb") => lb(num(2, 4) as usize, num(3, 3) as usize, num(4, 0) as usize, num(5, 300) as usize),
         Some("one") => {
             let state = app_state();
             for l in stdin_lines() {
